@@ -7,6 +7,7 @@ package util
 
 import (
 	kruiseappsv1alpha1 "github.com/openkruise/kruise-api/apps/v1alpha1"
+	kruiseappsv1beta1 "github.com/openkruise/kruise-api/apps/v1beta1"
 	rolloutv1beta1 "github.com/openkruise/rollouts/api/v1beta1"
 	"github.com/openkruise/rollouts/pkg/verifrt"
 	"github.com/openkruise/rollouts/pkg/verifrt/symclient"
@@ -99,4 +100,49 @@ func VerifC10_DeploymentRollbackIsDetected() {
 	} else if canaryState != 2 {
 		verifrt.Assert(w.PodTemplateHash == "", "C10.finder.deployment.noPodTemplateHashWithoutACanaryReplicaSet")
 	}
+}
+
+// VerifC10_StatefulSetRollbackIsDetected: the same for the StatefulSet-like workloads (native and Advanced
+// StatefulSet): reverted to the stable revision while pods of another revision still exist is a rollback — reported
+// as a plain revision change it would be handled as a new release of the stable revision.
+func VerifC10_StatefulSetRollbackIsDetected() {
+	revs := []string{"w-7d8c9f", "w-5b6a4e"}
+	R := int32(verifrt.IntRange("spec.replicas", 0, 1000))
+	replicas := int32(verifrt.IntRange("status.replicas", 0, 2000))
+	updated := int32(verifrt.IntRange("status.updated", 0, 2000))
+	verifrt.Assume(updated <= replicas)
+	update := revs[verifrt.IntRange("updateRevision", 0, 1)]
+	inProgress := verifrt.Bool("inRolloutProgressing")
+	meta := metav1.ObjectMeta{Namespace: "ns", Name: "w", Generation: 4}
+	if inProgress {
+		meta.Annotations = map[string]string{InRolloutProgressingAnnotation: `{"rolloutName":"ro"}`}
+	}
+	var obj client.Object
+	ref := &rolloutv1beta1.ObjectRef{APIVersion: "apps/v1", Kind: "StatefulSet", Name: "w"}
+	if verifrt.Bool("advanced") {
+		ref.APIVersion = "apps.kruise.io/v1beta1"
+		s := &kruiseappsv1beta1.StatefulSet{TypeMeta: metav1.TypeMeta{APIVersion: ref.APIVersion, Kind: "StatefulSet"}, ObjectMeta: meta}
+		s.Spec.Replicas = &R
+		s.Status.ObservedGeneration = 4
+		s.Status.Replicas, s.Status.UpdatedReplicas = replicas, updated
+		s.Status.CurrentRevision, s.Status.UpdateRevision = revs[0], update
+		obj = s
+	} else {
+		s := &apps.StatefulSet{TypeMeta: metav1.TypeMeta{APIVersion: ref.APIVersion, Kind: "StatefulSet"}, ObjectMeta: meta}
+		s.Spec.Replicas = &R
+		s.Status.ObservedGeneration = 4
+		s.Status.Replicas, s.Status.UpdatedReplicas = replicas, updated
+		s.Status.CurrentRevision, s.Status.UpdateRevision = revs[0], update
+		obj = s
+	}
+	cli := &symclient.Client{Objects: []client.Object{obj}}
+	f := NewControllerFinder(cli)
+	w, err := f.getStatefulSetLikeWorkload("ns", ref)
+	verifrt.Assert(err == nil && w != nil && w.IsStatusConsistent, "C10.finder.statefulset.found")
+	if err != nil || w == nil {
+		return
+	}
+	verifrt.Assert(w.IsInRollback == (inProgress && update == revs[0] && updated != replicas), "C10.finder.statefulset.rollbackDetectedIffRevertedWhilePodsOfAnotherRevisionExist")
+	verifrt.Assert(w.InRolloutProgressing == inProgress, "C10.finder.statefulset.inProgressFlag")
+	verifrt.Assert(w.Replicas == R && w.StableRevision == revs[0] && w.CanaryRevision == update, "C10.finder.statefulset.sizeAndRevisions")
 }
